@@ -292,7 +292,11 @@ def run_case(ctx, i, rng):
         ])
         symdirs = parse_cli_sym_dirs(sym_text)
         ctx.count('histories_with_symlink_dirs')
-    nops = rng.randint(6, 9) if ctx.tier == 'quick' else rng.randint(6, 22)
+    if ctx.tier == 'quick':
+        nops = rng.randint(6, 9) if rng.random() < 0.8 else rng.randint(
+            10, 14)
+    else:
+        nops = rng.randint(6, 22)
     history = []
     stats = {'numbered_ok': 0, 'clean_removed': 0}
 
@@ -498,6 +502,18 @@ def run_case(ctx, i, rng):
                 rc = _reject_class(exc)
                 desc['result'] = f'rejected:{rc}'
                 ctx.count('install_rejected:' + rc)
+                if (rc == 'already_exists' and run_name is None
+                        and not no_run_name):
+                    # "successive installs create run1, run2, ...": the
+                    # number chosen for a numbered install must be free
+                    history.append(desc)
+                    fail('C48:numbered-install-refused:chosen-number-'
+                         'already-exists',
+                         f'numbered install of {m.name} at step {step} was '
+                         f'refused: {str(exc)[:160]}',
+                         workflow=m.name,
+                         existing=sorted(m.numbered_existing()))
+                    history.pop()
             finally:
                 _close_install_logs()
             history.append(desc)
